@@ -1,7 +1,7 @@
 (** The RFC 9114 error table of the connection-level machinery, on the model Conn.v. *)
 From Coq Require Import List ZArith Bool Lia.
 From V Require Import Gen.Params Lib.Hex Wire.Varint Wire.VarintProofs
-  H3Stream.Model H3Stream.Proofs H3Stream.ProofsStream H3Stream.Conn.
+  H3Stream.Model H3Stream.Proofs H3Stream.ProofsStream H3Stream.ProofsSettings H3Stream.Conn.
 Import ListNotations.
 Open Scope Z_scope.
 
@@ -147,4 +147,194 @@ Proof.
   split; [exact dup_qpack_decoder|]. split; [exact push_stream|]. split; [exact unknown_stream_type|].
   split; [exact control_first_frame_data|]. split; [exact control_first_frame_reserved|].
   split; [exact control_closed_early|]. repeat split.
+Qed.
+
+(** * More of the "forbidden" table (audit round) *)
+
+Lemma parse_next_headers (f : nat) (s : src) (cl : option Z) (th lh : list Z) (l : Z) (rest : list Z) :
+  benign s -> venc th 1 -> venc lh l -> s_data s = th ++ lh ++ rest ->
+  exists s', parse_next (S f) s cl = (inr (FHeaders l (zlen th + zlen lh)), s', cl) /\ s_data s' = rest /\ same_end s s'.
+Proof.
+  intros Hb Ht Hl Hd. destruct (read_header s th lh 1 l rest Hb Ht Hl Hd) as (s1 & s2 & H1 & H2 & H3 & H4).
+  cbn [parse_next]. rewrite H1, H2. cbn. eauto.
+Qed.
+
+(** ** Request streams (Stream.Read) *)
+
+(** A frame that ParseNext delivers and that is neither DATA nor HEADERS -- i.e. SETTINGS or GOAWAY
+    on a request stream: "peer sent an unexpected frame", connection closed with H3_FRAME_UNEXPECTED. *)
+Lemma stream_read_unexpected_frame (x : stream) (blen : Z) (fr : frame) (s' : src) (cl : option Z) :
+  x_rem x = 0 -> parse_next (fuel_of (x_src x)) (x_src x) (x_closed x) = (inr fr, s', cl) ->
+  (exists st, fr = FSettings st) \/ (exists id, fr = FGoaway id) ->
+  exists x', stream_read x blen = ([], Some EUnexpectedFrame, x') /\
+             x_closed x' = close_conn cl h3ErrCodeFrameUnexpected /\ x_src x' = s'.
+Proof.
+  intros H0 Hp Hf. unfold stream_read. rewrite H0. cbn [Z.eqb]. rewrite Hp.
+  destruct Hf as [[st ->]|[id ->]]; eexists; (split; [reflexivity|]); cbn; auto.
+Qed.
+
+Lemma stream_read_goaway_on_request_stream (x : stream) (blen : Z) (th lh ie rest : list Z) (l id : Z) :
+  x_rem x = 0 -> x_closed x = None -> benign (x_src x) -> venc th 7 -> venc lh l -> venc ie id -> zlen ie = l ->
+  s_data (x_src x) = th ++ lh ++ ie ++ rest ->
+  exists x', stream_read x blen = ([], Some EUnexpectedFrame, x') /\ x_closed x' = Some h3ErrCodeFrameUnexpected.
+Proof.
+  intros H0 Hc Hb Ht Hl Hi Hz Hd. unfold fuel_of.
+  destruct (parse_next_goaway_frame (length (s_data (x_src x))) (x_src x) (x_closed x) th lh ie rest l id Hb Ht Hl Hi Hd) as (s' & Hp & _).
+  rewrite Hz, Z.eqb_refl in Hp.
+  destruct (stream_read_unexpected_frame x blen (FGoaway id) s' (x_closed x) H0 Hp ltac:(right; eauto)) as (x' & H1 & H2 & _).
+  exists x'. split; [exact H1|]. rewrite H2, Hc. reflexivity.
+Qed.
+
+Lemma stream_read_settings_on_request_stream (x : stream) (blen : Z) (th lh pl rest : list Z) (fr : settings) :
+  x_rem x = 0 -> x_closed x = None -> benign (x_src x) -> venc th 4 -> venc lh (zlen pl) -> zlen pl <= maxSettingsLen ->
+  settings_payload pl = inr fr -> s_data (x_src x) = th ++ lh ++ pl ++ rest ->
+  exists x', stream_read x blen = ([], Some EUnexpectedFrame, x') /\ x_closed x' = Some h3ErrCodeFrameUnexpected.
+Proof.
+  intros H0 Hc Hb Ht Hl Hlen Hp Hd. unfold fuel_of.
+  destruct (parse_next_settings_frame (length (s_data (x_src x))) (x_src x) (x_closed x) th lh pl rest fr Hb Ht Hl Hlen Hp Hd) as (s' & Hq & _).
+  destruct (stream_read_unexpected_frame x blen (FSettings fr) s' (x_closed x) H0 Hq ltac:(left; eauto)) as (x' & H1 & H2 & _).
+  exists x'. split; [exact H1|]. rewrite H2, Hc. reflexivity.
+Qed.
+
+(** DATA / a second HEADERS frame after the trailers: error, nothing delivered, the trailer
+    callback does not run again. *)
+Lemma stream_read_data_after_trailers (x : stream) (blen : Z) (th lh rest : list Z) (l : Z) :
+  x_rem x = 0 -> x_trailer x = true -> benign (x_src x) -> venc th 0 -> venc lh l ->
+  s_data (x_src x) = th ++ lh ++ rest ->
+  exists x', stream_read x blen = ([], Some EDataAfterTrailers, x') /\ x_trailers x' = x_trailers x /\
+             x_closed x' = x_closed x.
+Proof.
+  intros H0 Htr Hb Ht Hl Hd. unfold stream_read, fuel_of. rewrite H0. cbn [Z.eqb].
+  destruct (parse_next_data (length (s_data (x_src x))) (x_src x) (x_closed x) th lh l rest Hb Ht Hl Hd) as (s' & Hp & _).
+  rewrite Hp. cbn [x_trailer set_closed set_src]. rewrite Htr. eexists. split; [reflexivity|]. cbn. auto.
+Qed.
+
+Lemma stream_read_headers_after_trailers (x : stream) (blen : Z) (th lh rest : list Z) (l : Z) :
+  x_rem x = 0 -> x_trailer x = true -> benign (x_src x) -> venc th 1 -> venc lh l ->
+  s_data (x_src x) = th ++ lh ++ rest ->
+  exists x', stream_read x blen = ([], Some EHeadersAfterTrailers, x') /\ x_trailers x' = x_trailers x /\
+             x_closed x' = x_closed x.
+Proof.
+  intros H0 Htr Hb Ht Hl Hd. unfold stream_read, fuel_of. rewrite H0. cbn [Z.eqb].
+  destruct (parse_next_headers (length (s_data (x_src x))) (x_src x) (x_closed x) th lh l rest Hb Ht Hl Hd) as (s' & Hp & _).
+  rewrite Hp. cbn [x_trailer set_closed set_src]. rewrite Htr. eexists. split; [reflexivity|]. cbn. auto.
+Qed.
+
+(** ** Control stream *)
+
+(** EVERY frame other than SETTINGS as the first frame: H3_MISSING_SETTINGS. *)
+Lemma control_first_frame_not_settings (c : cstate) (s s' : src) (fr : frame) :
+  c_closed c = None -> parse_next (fuel_of s) s (c_closed c) = (inr fr, s', None) ->
+  (forall st, fr <> FSettings st) ->
+  c_closed (control_stream c s) = Some h3ErrCodeMissingSettings.
+Proof.
+  intros Hc Hp Hn. unfold control_stream. rewrite Hp.
+  destruct fr as [l|l hl|st|id]; try (cbn; reflexivity). exfalso. exact (Hn st eq_refl).
+Qed.
+
+(** After SETTINGS: every frame other than GOAWAY (a second SETTINGS, DATA, HEADERS):
+    H3_FRAME_UNEXPECTED -- for server and client. *)
+Lemma control_loop_frame_not_goaway (f : nat) (c : cstate) (s s' : src) (fr : frame) :
+  c_closed c = None -> parse_next (fuel_of s) s (c_closed c) = (inr fr, s', None) ->
+  (forall id, fr <> FGoaway id) ->
+  c_closed (control_loop (S f) c s) = Some h3ErrCodeFrameUnexpected.
+Proof.
+  intros Hc Hp Hn. cbn [control_loop]. rewrite Hp.
+  destruct fr as [l|l hl|st|id]; try (cbn; reflexivity). exfalso. exact (Hn id eq_refl).
+Qed.
+
+(** GOAWAY: a server has nothing to do (the ID is a push ID) and goes on with the next frame; a
+    client rejects IDs that are not client-initiated bidirectional stream IDs and IDs larger than
+    an earlier GOAWAY's (H3_ID_ERROR), and otherwise -- no request in flight -- closes gracefully. *)
+Lemma control_loop_goaway (f : nat) (c : cstate) (s s' : src) (id : Z) :
+  c_closed c = None -> parse_next (fuel_of s) s (c_closed c) = (inr (FGoaway id), s', None) ->
+  (c_server c = true -> control_loop (S f) c s = control_loop f (c_set_closed c None) s') /\
+  (c_server c = false -> id mod 4 <> 0 -> c_closed (control_loop (S f) c s) = Some h3ErrCodeIDError) /\
+  (c_server c = false -> id mod 4 = 0 -> forall m, c_goaway c = Some m -> m < id ->
+     c_closed (control_loop (S f) c s) = Some h3ErrCodeIDError) /\
+  (c_server c = false -> id mod 4 = 0 -> (c_goaway c = None \/ exists m, c_goaway c = Some m /\ id <= m) ->
+     c_closed (control_loop (S f) c s) = Some h3ErrCodeNoError /\ c_goaway (control_loop (S f) c s) = Some id).
+Proof.
+  intros Hc Hp. cbn [control_loop]. rewrite Hp. cbn [c_server c_set_closed c_goaway c_closed].
+  split; [intros ->; reflexivity|].
+  split.
+  { intros -> Hm. destruct (Z.eqb_spec (id mod 4) 0); [contradiction|]. cbn. reflexivity. }
+  split.
+  { intros -> Hm m Hg Hlt. rewrite Hm. cbn [Z.eqb negb]. rewrite Hg. destruct (Z.ltb_spec m id); [|lia]. cbn. reflexivity. }
+  intros -> Hm Hg. rewrite Hm. cbn [Z.eqb negb].
+  destruct Hg as [->|(m & -> & Hle)]; [cbn; auto|]. destruct (Z.ltb_spec m id); [lia|]. cbn. auto.
+Qed.
+
+Lemma forbidden_table :
+  (forall x blen th lh ie rest l id, x_rem x = 0 -> x_closed x = None -> benign (x_src x) -> venc th 7 -> venc lh l -> venc ie id -> zlen ie = l ->
+     s_data (x_src x) = th ++ lh ++ ie ++ rest ->
+     exists x', stream_read x blen = ([], Some EUnexpectedFrame, x') /\ x_closed x' = Some h3ErrCodeFrameUnexpected) /\
+  (forall x blen th lh pl rest fr, x_rem x = 0 -> x_closed x = None -> benign (x_src x) -> venc th 4 -> venc lh (zlen pl) -> zlen pl <= maxSettingsLen ->
+     settings_payload pl = inr fr -> s_data (x_src x) = th ++ lh ++ pl ++ rest ->
+     exists x', stream_read x blen = ([], Some EUnexpectedFrame, x') /\ x_closed x' = Some h3ErrCodeFrameUnexpected) /\
+  (forall x blen th lh rest l, x_rem x = 0 -> x_trailer x = true -> benign (x_src x) -> venc th 0 -> venc lh l ->
+     s_data (x_src x) = th ++ lh ++ rest ->
+     exists x', stream_read x blen = ([], Some EDataAfterTrailers, x') /\ x_trailers x' = x_trailers x /\ x_closed x' = x_closed x) /\
+  (forall x blen th lh rest l, x_rem x = 0 -> x_trailer x = true -> benign (x_src x) -> venc th 1 -> venc lh l ->
+     s_data (x_src x) = th ++ lh ++ rest ->
+     exists x', stream_read x blen = ([], Some EHeadersAfterTrailers, x') /\ x_trailers x' = x_trailers x /\ x_closed x' = x_closed x) /\
+  (forall c s s' fr, c_closed c = None -> parse_next (fuel_of s) s (c_closed c) = (inr fr, s', None) ->
+     (forall st, fr <> FSettings st) -> c_closed (control_stream c s) = Some h3ErrCodeMissingSettings) /\
+  (forall f c s s' fr, c_closed c = None -> parse_next (fuel_of s) s (c_closed c) = (inr fr, s', None) ->
+     (forall id, fr <> FGoaway id) -> c_closed (control_loop (S f) c s) = Some h3ErrCodeFrameUnexpected) /\
+  (forall f c s s' id, c_closed c = None -> parse_next (fuel_of s) s (c_closed c) = (inr (FGoaway id), s', None) ->
+     (c_server c = true -> control_loop (S f) c s = control_loop f (c_set_closed c None) s') /\
+     (c_server c = false -> id mod 4 <> 0 -> c_closed (control_loop (S f) c s) = Some h3ErrCodeIDError) /\
+     (c_server c = false -> id mod 4 = 0 -> forall m, c_goaway c = Some m -> m < id ->
+        c_closed (control_loop (S f) c s) = Some h3ErrCodeIDError) /\
+     (c_server c = false -> id mod 4 = 0 -> (c_goaway c = None \/ exists m, c_goaway c = Some m /\ id <= m) ->
+        c_closed (control_loop (S f) c s) = Some h3ErrCodeNoError /\ c_goaway (control_loop (S f) c s) = Some id)).
+Proof.
+  split; [exact stream_read_goaway_on_request_stream|]. split; [exact stream_read_settings_on_request_stream|].
+  split; [exact stream_read_data_after_trailers|]. split; [exact stream_read_headers_after_trailers|].
+  split; [exact control_first_frame_not_settings|]. split; [exact control_loop_frame_not_goaway|].
+  exact control_loop_goaway.
+Qed.
+
+(** ** The first frame of a request stream (server) *)
+Lemma request_stream_rules :
+  (* anything but HEADERS first: H3_FRAME_UNEXPECTED on the connection *)
+  (forall c data fin maxHdr fr s',
+     c_closed c = None ->
+     parse_next (fuel_of (usrc data fin)) (usrc data fin) None = (inr fr, s', None) ->
+     (forall l hl, fr <> FHeaders l hl) ->
+     c_closed (fst (request_stream c data fin maxHdr)) = Some h3ErrCodeFrameUnexpected) /\
+  (* the stream ends before a frame: H3_REQUEST_INCOMPLETE on the stream, connection untouched *)
+  (forall c maxHdr, c_closed c = None ->
+     request_stream c [] true maxHdr = (c_set_closed c None, RReset h3ErrCodeRequestIncomplete)) /\
+  (* a HEADERS frame larger than the limit: 431 *)
+  (forall c data fin maxHdr th lh l rest,
+     c_closed c = None -> venc th 1 -> venc lh l -> data = th ++ lh ++ rest -> maxHdr < l ->
+     snd (request_stream c data fin maxHdr) = RTooLarge /\ c_closed (fst (request_stream c data fin maxHdr)) = None) /\
+  (* a complete block within the limit is handed on, byte for byte *)
+  (forall c data fin maxHdr th lh blk rest,
+     c_closed c = None -> venc th 1 -> venc lh (zlen blk) -> data = th ++ lh ++ blk ++ rest -> zlen blk <= maxHdr ->
+     snd (request_stream c data fin maxHdr) = RAccepted blk /\ c_closed (fst (request_stream c data fin maxHdr)) = None).
+Proof.
+  split.
+  { intros c data fin maxHdr fr s' Hc Hp Hn. unfold request_stream. fold (usrc data fin). rewrite Hc, Hp.
+    destruct fr as [l|l hl|st|id]; try (cbn; reflexivity). exfalso. exact (Hn l hl eq_refl). }
+  split.
+  { intros c maxHdr Hc. unfold request_stream. rewrite Hc. reflexivity. }
+  split.
+  { intros c data fin maxHdr th lh l rest Hc Ht Hl Hd Hm.
+    assert (Hrs : request_stream c data fin maxHdr = (c_set_closed c None, RTooLarge)).
+    { unfold request_stream. fold (usrc data fin). rewrite Hc.
+      destruct (parse_next_headers (length (s_data (usrc data fin))) (usrc data fin) None th lh l rest (usrc_benign data fin) Ht Hl Hd) as (s' & Hp & _).
+      unfold fuel_of. rewrite Hp. destruct (Z.gtb_spec l maxHdr); [|lia]. reflexivity. }
+    rewrite Hrs. split; reflexivity. }
+  intros c data fin maxHdr th lh blk rest Hc Ht Hl Hd Hm.
+  assert (Hrs : request_stream c data fin maxHdr = (c_set_closed c None, RAccepted blk)).
+  { unfold request_stream. fold (usrc data fin). rewrite Hc.
+    destruct (parse_next_headers (length (s_data (usrc data fin))) (usrc data fin) None th lh (zlen blk) (blk ++ rest) (usrc_benign data fin) Ht Hl Hd) as (s' & Hp & Hd' & _).
+    unfold fuel_of at 1. rewrite Hp. destruct (Z.gtb_spec (zlen blk) maxHdr); [lia|].
+    destruct (read_full_app (fuel_of s') s' blk rest [] Hd') as (s2 & Hr & _).
+    { unfold fuel_of. rewrite Hd', app_length. lia. }
+    rewrite Hr. reflexivity. }
+  rewrite Hrs. split; reflexivity.
 Qed.
